@@ -78,3 +78,6 @@ Proof.
   apply IH; simpl in *; lia.
 Qed.
 
+
+Lemma nth_map_lt A B (f : A -> B) l k d d' : k < length l -> nth k (map f l) d = f (nth k l d').
+Proof. intros H. rewrite (nth_indep _ d (f d')) by (rewrite map_length; exact H). apply map_nth. Qed.
